@@ -918,108 +918,85 @@ impl FormatString {
         Ok((FormatPart::Literal(result_string), ""))
     }
 
-    fn parse_part_in_brackets(text: &str) -> Result<FormatPart, FormatParseError> {
-        let mut chars = text.chars().peekable();
+    /// Parses one replacement field, `text` starting at its opening brace, and returns it
+    /// together with the text that follows the field. This follows CPython's `parse_field`:
+    /// the field name runs up to the first `}`, `:` or `!` outside square brackets, a
+    /// conversion is a single character that must be followed by `:` or `}`, and the format
+    /// spec runs up to the brace that balances the opening one (nested braces are kept).
+    fn parse_spec(text: &str) -> Result<(FormatPart, &str), FormatParseError> {
+        let mut chars = text.char_indices();
+        if !matches!(chars.next(), Some((_, '{'))) {
+            return Err(FormatParseError::MissingStartBracket);
+        }
 
-        let mut left = String::new();
-        let mut right = String::new();
-
-        let mut split = false;
-        let mut selected = &mut left;
-        let mut inside_brackets = false;
-
-        while let Some(char) = chars.next() {
-            if char == '[' {
-                inside_brackets = true;
-
-                selected.push(char);
-
-                while let Some(next_char) = chars.next() {
-                    selected.push(next_char);
-
-                    if next_char == ']' {
-                        inside_brackets = false;
-                        break;
-                    }
-                    if chars.peek().is_none() {
+        let mut terminator = None;
+        while let Some((idx, c)) = chars.next() {
+            match c {
+                '{' => return Err(FormatParseError::UnescapedStartBracketInLiteral),
+                '[' => {
+                    // anything may appear inside an index, up to the closing bracket
+                    if !chars.by_ref().any(|(_, c)| c == ']') {
                         return Err(FormatParseError::MissingRightBracket);
                     }
                 }
-            } else if char == ':' && !split && !inside_brackets {
-                split = true;
-                selected = &mut right;
-            } else {
-                selected.push(char);
-            }
-        }
-
-        // before the comma is a keyword or arg index, after the comma is maybe a spec.
-        let arg_part: &str = &left;
-
-        let format_spec = if split { right } else { String::new() };
-
-        // left can still be the conversion (!r, !s, !a)
-        let parts: Vec<&str> = arg_part.splitn(2, '!').collect();
-        // before the bang is a keyword or arg index, after the comma is maybe a conversion spec.
-        let arg_part = parts[0];
-
-        let conversion_spec = parts
-            .get(1)
-            .map(|conversion| {
-                // conversions are only every one character
-                conversion
-                    .chars()
-                    .exactly_one()
-                    .map_err(|_| FormatParseError::UnknownConversion)
-            })
-            .transpose()?;
-
-        Ok(FormatPart::Field {
-            field_name: arg_part.to_owned(),
-            conversion_spec,
-            format_spec,
-        })
-    }
-
-    fn parse_spec(text: &str) -> Result<(FormatPart, &str), FormatParseError> {
-        let mut nested = false;
-        let mut end_bracket_pos = None;
-        let mut left = String::new();
-
-        // There may be one layer nesting brackets in spec
-        for (idx, c) in text.char_indices() {
-            if idx == 0 {
-                if c != '{' {
-                    return Err(FormatParseError::MissingStartBracket);
-                }
-            } else if c == '{' {
-                if nested {
-                    return Err(FormatParseError::InvalidFormatSpecifier);
-                } else {
-                    nested = true;
-                    left.push(c);
-                    continue;
-                }
-            } else if c == '}' {
-                if nested {
-                    nested = false;
-                    left.push(c);
-                    continue;
-                } else {
-                    end_bracket_pos = Some(idx);
+                '}' | ':' | '!' => {
+                    terminator = Some((idx, c));
                     break;
                 }
-            } else {
-                left.push(c);
+                _ => {}
             }
         }
-        if let Some(pos) = end_bracket_pos {
-            let (_, right) = text.split_at(pos);
-            let format_part = FormatString::parse_part_in_brackets(&left)?;
-            Ok((format_part, &right[1..]))
-        } else {
-            Err(FormatParseError::UnmatchedBracket)
+        let Some((name_end, terminator)) = terminator else {
+            return Err(FormatParseError::UnmatchedBracket);
+        };
+        let field_name = text[1..name_end].to_owned();
+
+        let mut conversion_spec = None;
+        let mut terminator = (name_end, terminator);
+        if terminator.1 == '!' {
+            let Some((_, conversion)) = chars.next() else {
+                return Err(FormatParseError::UnmatchedBracket);
+            };
+            conversion_spec = Some(conversion);
+            match chars.next() {
+                Some((idx, c @ ('}' | ':'))) => terminator = (idx, c),
+                Some(_) => return Err(FormatParseError::UnknownConversion),
+                None => return Err(FormatParseError::UnmatchedBracket),
+            }
         }
+        if terminator.1 == '}' {
+            return Ok((
+                FormatPart::Field {
+                    field_name,
+                    conversion_spec,
+                    format_spec: String::new(),
+                },
+                &text[terminator.0 + 1..],
+            ));
+        }
+
+        let spec_start = terminator.0 + 1;
+        let mut depth = 1;
+        for (idx, c) in chars {
+            match c {
+                '{' => depth += 1,
+                '}' => {
+                    depth -= 1;
+                    if depth == 0 {
+                        return Ok((
+                            FormatPart::Field {
+                                field_name,
+                                conversion_spec,
+                                format_spec: text[spec_start..idx].to_owned(),
+                            },
+                            &text[idx + 1..],
+                        ));
+                    }
+                }
+                _ => {}
+            }
+        }
+        Err(FormatParseError::UnmatchedBracket)
     }
 }
 
